@@ -106,6 +106,10 @@ func (s *Spec) WorldFiles() map[string]string {
 	if s.Wrap == "wrapErrorsUsing" {
 		files["w/perr/perr.go"] = perrSource
 	}
+	if s.Aliases {
+		// part of the world: the GODEBUG setting of the goverter process
+		files["godebug.txt"] = "gotypesalias=1"
+	}
 	return files
 }
 
@@ -307,7 +311,11 @@ func (e *Engine) buildWorldFiles(s *Spec, prop string, files map[string]string, 
 	if err := materialiseFiles(dir, files); err != nil {
 		return nil, &vnode.BuildError{Msg: err.Error()}
 	}
-	out, err := goRun(dir, nil, e.Goverter, "gen", "./w")
+	var genv []string
+	if v, ok := files["godebug.txt"]; ok {
+		genv = []string{"GODEBUG=" + strings.TrimSpace(v)}
+	}
+	out, err := goRun(dir, genv, e.Goverter, "gen", "./w")
 	if err != nil {
 		if ee, ok := err.(*exec.ExitError); ok && ee.ExitCode() == 1 {
 			res.Rejected = true
